@@ -5,6 +5,7 @@ package c13
 import (
 	"fmt"
 	"reflect"
+	"slices"
 	"sort"
 	"strings"
 	"testing"
@@ -240,6 +241,49 @@ func TestFold(t *testing.T) {
 		r.NontrivialN(l.n)
 		r.Count("fold_positive_random", l.pos)
 	})
+
+	// long needles and their near-misses: the haystack holds a case variant of the needle that differs from it at
+	// exactly one position (the first, the middle, the last, and around 8/16/32/64/128/256) - and the exact variant
+	{
+		l := &local{}
+		lens := []int{1, 2, 3, 7, 8, 9, 15, 16, 17, 31, 32, 33, 63, 64, 65, 66, 100, 127, 128, 129, 255, 256, 257, 1000}
+		for _, alpha := range []string{"abcdefghijklmnopqrstuvwxyz0123456789-.", "example.com/Path", "k\u212as\u017f\u00e9\u00c9\u0436\u0416xyz"} {
+			ar := []rune(alpha)
+			for _, L := range lens {
+				needle := make([]rune, L)
+				for i := range needle {
+					needle[i] = ar[(i*7+L)%len(ar)]
+				}
+				variant := make([]rune, L)
+				for i, x := range needle {
+					if i%2 == 0 {
+						x = unicode.SimpleFold(x)
+					}
+					variant[i] = x
+				}
+				poss := map[int]bool{0: true, L / 2: true, L - 1: true}
+				for _, b := range []int{8, 16, 32, 64, 128, 256} {
+					for _, d := range []int{-1, 0, 1} {
+						if p := b + d; p >= 0 && p < L {
+							poss[p] = true
+						}
+					}
+				}
+				for _, pre := range []string{"", "x", "\u00e9\u00e9", strings.Repeat("q", 70)} {
+					foldCase(r, l, pre+string(variant)+"tail", string(needle))
+					for pos := range poss {
+						miss := slices.Clone(variant)
+						miss[pos] = '#'
+						foldCase(r, l, pre+string(miss)+"tail", string(needle))
+						foldCase(r, l, pre+string(miss)+string(variant), string(needle))
+					}
+				}
+			}
+		}
+		r.Eval(l.e)
+		r.NontrivialN(l.n)
+		r.Count("fold_long_needle_cases", l.e)
+	}
 
 	// ASCII non-letters next to their "bit 5" partners: only letters fold
 	symbols := []string{"[", "{", "@", "`", "_", "\x7f", "\n", "*", "\x00", " ", "1", "\x11", "a", "A", "^", "~"}
